@@ -1,5 +1,5 @@
 (* I/O glue only: one case per input line, one result per output line.
-   All parsing, evaluation and printing is done by the extracted [Model.run_line]. *)
+   All parsing, evaluation and printing is done by the extracted [Model.run_line_all]. *)
 open Model
 
 let ascii_of_char (c : char) : ascii =
@@ -29,7 +29,7 @@ let () =
   try
     while true do
       let line = input_line stdin in
-      print_string (string_of_coq (run_line (coq_of_string line)));
+      print_string (string_of_coq (run_line_all (coq_of_string line)));
       print_newline ()
     done
   with End_of_file -> ()
